@@ -10,7 +10,7 @@ AUDIT = 'Audit/C03.lean'
 ANCHORS = ['txtorcon/torcontrolprotocol.py', 'txtorcon/util.py']
 RULE = ('sessions as in C01/C02 (commands, replies, events, listeners) in which the connection is lost at a random point — between '
         'messages, mid-line, mid-reply, mid-data-block — with 0..N commands queued, clean or unclean reason, followed by further '
-        'submissions and when_disconnected() requests on either side of the loss, some of them made from inside a disconnect notification; command texts include braces and percent signs; in some sessions the loss is reported from inside a result callback, a command failed by the loss is submitted again from its errback, or the debug log (start_debug) is on; additionally every byte offset of each of the first '
+        'submissions, when_disconnected() requests and callbacks chained on the deprecated on_disconnect Deferred on either side of the loss, some of them made from inside a disconnect notification; command texts include braces and percent signs; in some sessions the loss is reported from inside a result callback, a command failed by the loss is submitted again from its errback, or the debug log (start_debug) is on; additionally every byte offset of each of the first '
         'sessions is used as a cut point. non-trivial = loss with at least one command unanswered or a submission after the loss; '
         'distinct = distinct op lists')
 TRUSTED = ["SingleObserver and Deferred firing as observed through passive recording callbacks",
@@ -43,6 +43,8 @@ def tagger(case, impl):
                  'clean' if ops[li][1] else 'unclean', 'cut-midline' if midline else 'cut-at-boundary',
                  'whendisc_before=%d' % min(2, sum(1 for op in ops[:li] if op[0] == 'whendisc')),
                  'whendisc_after=%d' % min(2, sum(1 for op in ops[li:] if op[0] == 'whendisc')),
+                 'on_disconnect_before=%d' % min(2, sum(1 for op in ops[:li] if op[0] == 'ondisc')),
+                 'on_disconnect_after=%d' % min(1, sum(1 for op in ops[li:] if op[0] == 'ondisc')),
                  'nested=%d' % min(2, sum(1 for op in ops if op[0] == 'nested')),
                  'loss-in-callback' if any(op[0] == 'relost' for op in ops) else 'loss-plain', 'debuglog' if case.get('debug') else 'nodebuglog']
         nontrivial = pending_at_loss >= 1 or after >= 1
@@ -60,6 +62,12 @@ def corpus():
         # nothing queued at the loss: the second later command used to hang
         {'acts': {}, 'ops': [['whendisc', 9001], ['lost', True], ['submit', 1, 'A', False], ['submit', 2, 'B', True],
                              ['whendisc', 9002]], 'tls': {}},
+        # the deprecated on_disconnect Deferred: callbacks chained before the loss run once — with the protocol after a clean close,
+        # with a Failure otherwise — next to when_disconnected(); afterwards the attribute is gone
+        {'acts': {}, 'ops': [['ondisc', 9001], ['whendisc', 9002], ['ondisc', 9003], ['submit', 1, 'A', False], ['lost', True],
+                             ['ondisc', 9004], ['whendisc', 9005], ['submit', 2, 'B', False]], 'tls': {}},
+        {'acts': {}, 'ops': [['ondisc', 9001], ['whendisc', 9002], ['submit', 1, 'A', False], ['submit', 2, 'B', False], ['lost', False],
+                             ['ondisc', 9004], ['submit', 3, 'C', False]], 'tls': {}},
     ]
 
 
@@ -87,7 +95,7 @@ def cut_variants(case, rng, max_cuts):
         nid = 5000
         for _ in range(rng.randint(0, 3)):
             nid += 1
-            new_ops.append(rng.choice([['submit', nid, 'Z', rng.random() < 0.3], ['whendisc', nid]]))
+            new_ops.append(rng.choice([['submit', nid, 'Z', rng.random() < 0.3], ['whendisc', nid], ['ondisc', nid]]))
         yield {'acts': case.get('acts', {}), 'debug': case.get('debug'), 'ops': new_ops, 'tls': tls}
 
 
